@@ -13,7 +13,12 @@ every rule:
       `_ret = f(x)` / `return _ret`);
 
   C4  a local that merely renames a never-rebound parameter (`q = p`) is
-      replaced by the parameter.
+      replaced by the parameter;
+  C5  `if __debug__:` bodies are taken as written;
+  C6  a call to a private module-level function, or to a private method
+      through self, whose body is a single `return <expression>` is replaced
+      by that expression (the pinned tree has one, CMCReadWrite._hash, which
+      stays a call: this normalises helper extraction).
 
 Nodes keep the source positions of the statement they came from, so reports
 still point at real lines.  The transformation never adds behaviour: every
@@ -25,6 +30,8 @@ import copy
 
 # constants the rules address by name (their *value* is checked separately)
 PROTECTED = {"_CHUNK_PATTERN_FLAT", "_CHUNK_PATTERN_SUBDIR"}
+# private one-expression methods the rules address by name
+PROTECTED_METHODS = {"_hash"}
 
 
 def _scalar(node):
@@ -305,6 +312,137 @@ def _drop_param_aliases(fnode):
             n.id = table[n.id]
 
 
+MUTATORS = {"append", "extend", "clear", "pop", "insert", "remove", "update",
+            "sort", "reverse", "resize", "setdefault", "popitem", "add",
+            "discard", "write", "seek", "truncate"}
+PROJ_ATTRS = {"shape", "dtype", "itemsize", "size", "ndim", "nbytes", "T"}
+
+
+def _inline_projections(fnode):
+    """C7: a local bound once to a projection of a parameter that is never
+    re-bound - `n = len(buf)`, `dt = chunk.dtype`, `bx = block_size[0]`,
+    `view = memoryview(buf)`, `bx, by = bs[0], bs[1]`, `z, y, x =
+    chunk.shape[1:]` - is replaced by that projection in the statements that
+    read it.  len() is only followed for parameters the function never grows
+    (no augmented assignment, no mutating method call)."""
+    params = {a.arg for a in ast.walk(fnode.args) if isinstance(a, ast.arg)}
+    own = {a.arg for a in fnode.args.posonlyargs + fnode.args.args +
+           fnode.args.kwonlyargs}
+    stores, declared, mutated = {}, set(), set()
+    for n in ast.walk(fnode):
+        if isinstance(n, ast.Name) and isinstance(n.ctx, (ast.Store, ast.Del)):
+            stores[n.id] = stores.get(n.id, 0) + 1
+        elif isinstance(n, (ast.Global, ast.Nonlocal)):
+            declared |= set(n.names)
+        elif isinstance(n, ast.arg) and n.arg not in own:
+            stores[n.arg] = stores.get(n.arg, 0) + 2     # nested parameter
+        elif isinstance(n, ast.AugAssign) and isinstance(n.target, ast.Name):
+            mutated.add(n.target.id)
+        elif isinstance(n, ast.Call) and isinstance(n.func, ast.Attribute) \
+                and isinstance(n.func.value, ast.Name) and \
+                n.func.attr in MUTATORS:
+            mutated.add(n.func.value.id)
+
+    def stable(name):
+        return name in own and stores.get(name, 0) == 0 and name != "self"
+
+    def projection(v):
+        """The expression if v is a projection of a stable parameter."""
+        if isinstance(v, ast.Call) and isinstance(v.func, ast.Name) and \
+                len(v.args) == 1 and not v.keywords and \
+                isinstance(v.args[0], ast.Name) and stable(v.args[0].id):
+            if v.func.id == "len" and v.args[0].id not in mutated:
+                return v
+            if v.func.id == "memoryview":
+                return v.args[0]
+            return None
+        if isinstance(v, ast.Attribute) and v.attr in PROJ_ATTRS and \
+                isinstance(v.value, ast.Name) and stable(v.value.id):
+            return v
+        if isinstance(v, ast.Subscript) and isinstance(v.slice, ast.Constant) \
+                and isinstance(v.slice.value, int):
+            b = v.value
+            if isinstance(b, ast.Name) and stable(b.id) and \
+                    b.id not in mutated:
+                return v
+            if isinstance(b, ast.Attribute) and b.attr == "shape" and \
+                    isinstance(b.value, ast.Name) and stable(b.value.id):
+                return v
+        return None
+    table = {}
+
+    def consider(name, v):
+        if name in params or name in declared or stores.get(name, 0) != 1:
+            return False
+        e = projection(v)
+        if e is None:
+            return False
+        table[name] = e
+        return True
+
+    def rewrite(stmts):
+        out = []
+        for st in stmts:
+            if isinstance(st, ast.Assign) and len(st.targets) == 1:
+                t, v = st.targets[0], st.value
+                if isinstance(t, ast.Name) and consider(t.id, v):
+                    continue
+                if isinstance(t, (ast.Tuple, ast.List)) and \
+                        all(isinstance(e, ast.Name) for e in t.elts):
+                    vals = None
+                    if isinstance(v, (ast.Tuple, ast.List)) and \
+                            len(v.elts) == len(t.elts):
+                        vals = list(v.elts)
+                    elif isinstance(v, ast.Subscript) and \
+                            isinstance(v.slice, ast.Slice) and \
+                            v.slice.step is None and v.slice.upper is None \
+                            and isinstance(v.value, ast.Attribute) and \
+                            v.value.attr == "shape":
+                        lo = v.slice.lower
+                        lo = 0 if lo is None else (
+                            lo.value if isinstance(lo, ast.Constant) and
+                            isinstance(lo.value, int) else None)
+                        if lo is not None and lo >= 0:
+                            vals = [ast.copy_location(ast.Subscript(
+                                value=copy.deepcopy(v.value),
+                                slice=ast.Constant(value=lo + k),
+                                ctx=ast.Load()), v)
+                                for k in range(len(t.elts))]
+                    if vals is not None and all(
+                            projection(x) is not None and
+                            e.id not in params and e.id not in declared and
+                            stores.get(e.id, 0) == 1
+                            for e, x in zip(t.elts, vals)):
+                        for e, x in zip(t.elts, vals):
+                            table[e.id] = projection(x)
+                        continue
+            for field in ("body", "orelse", "finalbody"):
+                sub = getattr(st, field, None)
+                if isinstance(sub, list) and sub and \
+                        isinstance(sub[0], ast.stmt) and not isinstance(
+                            st, (ast.FunctionDef, ast.AsyncFunctionDef,
+                                 ast.ClassDef)):
+                    setattr(st, field, rewrite(sub) or
+                            [ast.copy_location(ast.Pass(), st)])
+            for h in getattr(st, "handlers", []) or []:
+                h.body = rewrite(h.body) or [ast.copy_location(ast.Pass(), h)]
+            out.append(st)
+        return out
+    fnode.body = rewrite(fnode.body) or [ast.copy_location(ast.Pass(), fnode)]
+    if not table:
+        return
+
+    class _S(ast.NodeTransformer):
+        def visit_Name(self, n):
+            if isinstance(n.ctx, ast.Load) and n.id in table:
+                e = copy.deepcopy(table[n.id])
+                for x in ast.walk(e):
+                    ast.copy_location(x, n)
+                return e
+            return n
+    _S().visit(fnode)
+
+
 class _DebugIf(ast.NodeTransformer):
     """C5: `if __debug__: body` -> body (the analysed configuration is the
     one in which assert statements are active, which is also what every rule
@@ -317,12 +455,152 @@ class _DebugIf(ast.NodeTransformer):
         return node
 
 
+# ---------------------------------------------------------------------
+# C6: private one-expression helpers
+# ---------------------------------------------------------------------
+def _expr_helper(fn):
+    """(params, defaults, expr) if fn is `def _name(a, b=1): return <expr>`
+    (docstring allowed), else None."""
+    if fn.decorator_list or not fn.name.startswith("_") or \
+            (fn.name.startswith("__") and fn.name.endswith("__")):
+        return None
+    a = fn.args
+    if a.vararg or a.kwarg or a.kwonlyargs or a.posonlyargs:
+        return None
+    body = [s for s in fn.body if not (isinstance(s, ast.Expr) and
+                                       isinstance(s.value, ast.Constant))]
+    if len(body) != 1 or not isinstance(body[0], ast.Return) or \
+            body[0].value is None:
+        return None
+    expr = body[0].value
+    for n in ast.walk(expr):
+        if isinstance(n, (ast.Yield, ast.YieldFrom, ast.Await, ast.NamedExpr)):
+            return None
+        if isinstance(n, ast.Call) and isinstance(n.func, ast.Name) and \
+                n.func.id in (fn.name, "super", "locals", "vars"):
+            return None
+    params = [x.arg for x in a.args]
+    defaults = dict(zip(params[len(params) - len(a.defaults):], a.defaults))
+    return params, defaults, expr
+
+
+class _InlineHelpers(ast.NodeTransformer):
+    def __init__(self, funcs, methods):
+        self.funcs = funcs
+        self.methods = methods
+        self.n = 0
+        self._k = 0
+
+    def _bind(self, params, defaults, call):
+        if any(isinstance(x, ast.Starred) for x in call.args) or \
+                any(k.arg is None for k in call.keywords) or \
+                len(call.args) > len(params):
+            return None
+        table = dict(zip(params, call.args))
+        for k in call.keywords:
+            if k.arg not in params or k.arg in table:
+                return None
+            table[k.arg] = k.value
+        for p_ in params:
+            if p_ not in table:
+                if p_ not in defaults:
+                    return None
+                table[p_] = defaults[p_]
+        return table
+
+    def _subst(self, expr, table, node):
+        e = copy.deepcopy(expr)
+        # names bound by comprehensions of the helper must not capture names
+        # of the argument expressions
+        self._k += 1
+        bound = {}
+        for n in ast.walk(e):
+            if isinstance(n, ast.comprehension):
+                for t in ast.walk(n.target):
+                    if isinstance(t, ast.Name):
+                        bound.setdefault(t.id, "%s__c%d" % (t.id, self._k))
+        table = {k: v for k, v in table.items() if k not in bound}
+
+        class R(ast.NodeTransformer):
+            def visit_Name(self_, n):
+                if n.id in bound:
+                    return ast.copy_location(
+                        ast.Name(id=bound[n.id], ctx=n.ctx), n)
+                if n.id in table and isinstance(n.ctx, ast.Load):
+                    return copy.deepcopy(table[n.id])
+                return n
+        e = R().visit(e)
+        for n in ast.walk(e):
+            ast.copy_location(n, node)
+        return e
+
+    def visit_Call(self, node):
+        self.generic_visit(node)
+        f = node.func
+        h = None
+        params = None
+        if isinstance(f, ast.Name) and f.id in self.funcs:
+            params, defaults, expr = self.funcs[f.id]
+        elif isinstance(f, ast.Attribute) and isinstance(f.value, ast.Name) \
+                and f.value.id == "self" and f.attr in self.methods:
+            params, defaults, expr = self.methods[f.attr]
+            params = params[1:]
+        if params is None:
+            return node
+        table = self._bind(params, defaults, node)
+        if table is None:
+            return node
+        self.n += 1
+        return self._subst(expr, table, node)
+
+
+def _inline_expr_helpers(tree):
+    """C6: a call to a private module-level function (or private method,
+    through self) whose body is one `return <expression>` is replaced by that
+    expression with the arguments substituted.  The helper stays defined."""
+    for _ in range(3):
+        funcs, methods, seen_m = {}, {}, {}
+        for st in tree.body:
+            if isinstance(st, ast.FunctionDef):
+                h = _expr_helper(st)
+                if h is not None:
+                    funcs[st.name] = h
+            elif isinstance(st, ast.ClassDef):
+                for m in st.body:
+                    if isinstance(m, ast.FunctionDef):
+                        seen_m[m.name] = seen_m.get(m.name, 0) + 1
+                        h = _expr_helper(m)
+                        if h is not None and h[0] and h[0][0] == "self":
+                            methods[m.name] = h
+        # a method name defined by several classes may be overridden; the
+        # few private one-liners the rules address by name stay calls
+        methods = {k: v for k, v in methods.items()
+                   if seen_m.get(k) == 1 and k not in PROTECTED_METHODS}
+        # a function rebound at module level is not a fixed helper
+        for st in tree.body:
+            if isinstance(st, (ast.Assign, ast.AnnAssign)):
+                tg = st.targets if isinstance(st, ast.Assign) else [st.target]
+                for t in tg:
+                    if isinstance(t, ast.Name):
+                        funcs.pop(t.id, None)
+        if not funcs and not methods:
+            return
+        tr = _InlineHelpers(funcs, methods)
+        tr.visit(tree)
+        if not tr.n:
+            return
+
+
 def canonicalise(tree):
     _DebugIf().visit(tree)
+    _inline_expr_helpers(tree)
     _subst_consts(tree)
     for n in ast.walk(tree):
         if isinstance(n, (ast.FunctionDef, ast.AsyncFunctionDef)):
             _drop_param_aliases(n)
+    for n in ast.walk(tree):
+        if isinstance(n, (ast.FunctionDef, ast.AsyncFunctionDef)):
+            _inline_projections(n)
     for n in ast.walk(tree):
         if isinstance(n, (ast.FunctionDef, ast.AsyncFunctionDef)):
             _propagate_temps(n)
